@@ -172,6 +172,17 @@ def path_rules(col, gcode, paths, I):
     declare(col)
     for p in paths:
         f = Facts(p, I)
+        if not f.raised:
+            col.instance('C03.R6', (gcode, f.pre_excluding, f.post_excluding()))
+            if f.pre_excluding is True and f.post_excluding() is False and not (
+                    ('ExcludeRegionState', 'exitExcludedRegion') in f.calls or ('ExcludeRegionState', 'resetState') in f.calls):
+                col.report('C03.R6', 'GcodeHandlers.handleGcode', '%s closes the episode without exitExcludedRegion' % gcode,
+                           'the episode flag is cleared on a path that does not go through the exit sequence',
+                           detail={'entry': p.entry, 'decisions': f.decisions()})
+            if f.pre_excluding is False and f.post_excluding() is True and ('ExcludeRegionState', 'enterExcludedRegion') not in f.calls:
+                col.report('C03.R6', 'GcodeHandlers.handleGcode', '%s opens an episode without enterExcludedRegion' % gcode,
+                           'the episode flag is set on a path that does not go through enterExcludedRegion',
+                           detail={'entry': p.entry, 'decisions': f.decisions()})
         if not f.raised and f.pre_excluding is True and f.post_excluding() is True:
             col.instance('C03.R2', (gcode, 'inside', f.describe()))
             for e in p.st.trace:
@@ -214,6 +225,8 @@ def writers_rule(ctx):
     for (q, val, line, mod, aug) in stores:
         ctx.instance('C03.R6', (q, ast.unparse(val) if val is not None else 'del'))
         v = val.value if isinstance(val, ast.Constant) else '?'
+        if v == '?':
+            continue        # computed value (helper/setter): decided on the abstract paths below (flag transitions)
         fn = q.split('.')[-1]
         if v is False and census.only_reached_through(ctx.model, q, ('ExcludeRegionState.exitExcludedRegion', 'ExcludeRegionState.resetState')):
             continue
@@ -232,7 +245,7 @@ def run(ctx, tier):
         from .model import AnalysisError
         raise AnalysisError('no exit path found')
     mode_rule(ctx, I)
-    run_path_rules(ctx, __name__, 'path_rules', ['G0', 'G1', 'G2', 'G3'], unroll=1)
+    run_path_rules(ctx, __name__, 'path_rules', ['G0', 'G1', 'G2', 'G3', 'G10', 'G11', 'G92', 'M999'], unroll=1)
     writers_rule(ctx)
     ctx.assume('the firmware maps logical to native coordinates as logical*unit + G92 offset + M206 offset '
                '(the convention AxisPosition.logicalToNative implements); exact real arithmetic')
